@@ -2,7 +2,7 @@
 // usage: harness <scenario> <min> <max> <bound> [--replay picks]
 //
 // Scenario numbers: 0..11 thread pool scripts, 50+k = pool script k ended by the DESTRUCTOR instead of an explicit cleanup(),
-// 100..105 work thread scripts, 150+k = work thread script 100+k ended by the destructor only.
+// 100..105 work thread scripts, 150+k = work thread script 100+k ended by the destructor only, 200/201 = pool / work thread on the REAL epoll loop.
 // Every odd-numbered task is submitted through the `const NonReturnFunc &` overloads (named lvalue functors), every even one through `&&`.
 #include "sched/sched.h"
 #include "sched/explore.h"
@@ -38,16 +38,35 @@ ThreadPool *g_tp = nullptr; WorkThread *g_wt = nullptr;
 int g_min = 0, g_max = 1, g_epoch = 0, g_cur_loop = -1;
 bool g_in_cleanup = false; cabinet::Token g_cancel_target; bool g_in_cancel = false;
 
-// FakeLoop (engine) counts a worker's post after cleanup() only in the `Func&&` overload; the pool posts its completion callbacks through
-// `const Func&` (thread_pool.cpp: runInLoop(item->main_cb, ...)), so that overload is counted here as well.
+// The loop handed to the pool models the CONTRACT of the real Loop entry points (event/loop.h, CommonLoop::run): runInLoop() is the only entry a
+// worker thread may use; runNext() is lock-free and loop-thread-only; run() resolves to runNext() unless the loop is running and the caller is a
+// foreign thread. "Running" = the main thread is inside drain(). A worker reaching runNext() - directly or through run() while the loop is not
+// running - is a violation. (Late posts after cleanup() are counted in both runInLoop overloads.)
 struct Loop5 : FakeLoop {
-  int id = 0;
-  RunId runInLoop(Func &&f, const std::string &w) override { return FakeLoop::runInLoop(std::move(f), w); }
+  int id = 0; bool running = false;            // guarded by m
+  std::vector<Func> nq; int nposted = 0;       // run-next queue: loop thread only, no lock - exactly as in CommonLoop
+  bool isInLoopThread() override { return sched_self() == 0; }
+  RunId runInLoop(Func &&f, const std::string &) override { std::lock_guard<std::mutex> g(m); if (closed_for_workers && sched_self() != 0) late_worker_posts++; q.push_back(std::move(f)); return ++posted; }
   RunId runInLoop(const Func &f, const std::string &) override { std::lock_guard<std::mutex> g(m); if (closed_for_workers && sched_self() != 0) late_worker_posts++; q.push_back(f); return ++posted; }
+  RunId runNext(Func &&f, const std::string &) override {
+    if (sched_self() != 0) sched_fail("worker-used-a-loop-thread-only-entry-point: runNext() reached from thread %d (directly, or through run() while the loop was not running)", sched_self());
+    nq.push_back(std::move(f)); return 1000000 + ++nposted; }
+  RunId runNext(const Func &f, const std::string &w) override { Func c(f); return runNext(std::move(c), w); }
+  RunId run(Func &&f, const std::string &w) override {
+    bool can_run_next; { std::lock_guard<std::mutex> g(m); can_run_next = !(running && sched_self() != 0); }
+    return can_run_next ? runNext(std::move(f), w) : runInLoop(std::move(f), w); }
+  RunId run(const Func &f, const std::string &w) override { Func c(f); return run(std::move(c), w); }
+  size_t drain5() { size_t n = 0;      // same lock operations as FakeLoop::drain; `running` is cleared in the critical section that finds nothing left
+    for (;;) { std::vector<Func> a, t; a.swap(nq); { std::lock_guard<std::mutex> g(m); t.swap(q); running = !(a.empty() && t.empty()); }
+      if (a.empty() && t.empty()) break; for (auto &f : a) { f(); n++; } for (auto &f : t) { f(); n++; } }
+    return n; }
 };
 Loop5 *g_loop = nullptr, *g_loopB = nullptr;
-void drain(Loop5 *l) { if (!l) return; g_cur_loop = l->id; l->drain(); g_cur_loop = -1; }
-void drain_all() { drain(g_loop); drain(g_loopB); }
+tbox::event::Loop *g_real = nullptr;     // scenarios 200+: the REAL epoll loop instead of the model
+void drain(Loop5 *l) { if (!l) return; g_cur_loop = l->id; l->drain5(); g_cur_loop = -1; }
+// one pass of the real loop on the main thread: a queued no-op makes it poll without sleeping; kOnce also drains the deferred calls on its way out
+void run_real_once() { if (!g_real) return; g_cur_loop = 0; g_real->runNext([] {}, "C05 no-op"); g_real->runLoop(tbox::event::Loop::Mode::kOnce); g_cur_loop = -1; }
+void drain_all() { drain(g_loop); drain(g_loopB); run_real_once(); }
 
 int clamp_level(int prio) { if (prio < THREAD_POOL_PRIO_MIN) prio = THREAD_POOL_PRIO_MIN; if (prio > THREAD_POOL_PRIO_MAX) prio = THREAD_POOL_PRIO_MAX; return prio - THREAD_POOL_PRIO_MIN; }   // 0 = picked first ("the smaller, the higher")
 
@@ -266,6 +285,21 @@ void scenario(int scen) {
     if (dtor_only) {   // the destructor is the cleanup: it must do everything cleanup() promises
       cleanup_begins(); sched_on_point(nullptr); delete tp; g_tp = nullptr; cleanup_returned("the destructor"); final_oracle(waited);
     } else { do_cleanup(); final_oracle(waited); g_tp = nullptr; delete tp; }
+  } else if (scen >= 200) {
+    // The REAL epoll loop under the scheduler (and under TSan): the loop is NOT inside runLoop() while the bodies finish and the workers hand their
+    // completion callbacks over; the main thread then enters the loop while a worker may still be at it, cleans up, and runs the loop again.
+    tbox::event::Loop *rl = tbox::event::Loop::New("epoll"); if (!rl) sched_fail("no epoll loop"); g_real = rl;
+    if (scen == 200) {
+      ThreadPool *tp = new ThreadPool(rl); g_tp = tp; tp->d_->task_pool.keep_number_ = 0;
+      if (!tp->initialize(g_min, g_max)) sched_fail("initialize failed");
+      submit(0, 0, true); submit(1, 0, true); wait_task(0); wait_task(1); waited = g_epoch;
+      run_real_once(); do_cleanup(); final_oracle(waited); g_tp = nullptr; delete tp;
+    } else {
+      WorkThread *wt = new WorkThread(rl); g_wt = wt; wt->d_->task_pool.keep_number_ = 0;
+      submit(0, 0, true); submit(1, 0, true); wait_task(0); wait_task(1); waited = g_epoch;
+      run_real_once(); do_cleanup(); g_wt = nullptr; delete wt; final_oracle(waited);
+    }
+    g_real = nullptr; delete rl;
   } else {
     bool dtor_only = scen >= 150; int script = dtor_only ? scen - 50 : scen;
     if (script == 103 || script == 105) g_loopB = &loopB;
